@@ -10,3 +10,4 @@ import (
 func verifSetQuery(u *url.URL, v url.Values)
 func verifMoveCookies(dst, src *http.Request)
 func verifJSONCopy(dst, src any) error
+func verifSchemaAccepts(doc, op string, parts map[string]any) bool
